@@ -5,6 +5,7 @@ import Exetera.Lemmas.SpansApply
 import Exetera.Lemmas.SpansScan
 import Exetera.Lemmas.SpansMerge
 import Exetera.Lemmas.SpansEntry
+import Exetera.Lemmas.SpansEntryN
 import Exetera.Lemmas.SpansIndexed
 import Exetera.Lemmas.SpansFilter
 /-!
@@ -182,24 +183,42 @@ theorem entrypoints_agree (a b : List Int) (hl : a.length = b.length) :
   · rw [getSpansForMultiFields_eq_spec a [b] (by intro f hf; simp at hf; rcases hf with rfl | rfl <;> simp [hl])]
     congr 1
     exact spans_congr _ _ _ _ (by simp [jointRows_length, List.length_zip, hl]) (isBoundary_jointRows2 a b hl)
-  · simp only [sessionGetSpansFields, columnSpans]
-    exact get_spans_by_spans_eq_spec a b hl
+  · have h : getSpansFor2FieldsBySpans (getSpansForField (fun x y => x != y) a) (getSpansForField (fun x y => x != y) b) =
+        .ok (spans neq (a.zip b)) := get_spans_by_spans_eq_spec a b hl
+    simp only [sessionGetSpansFields, columnSpans, foldColumnSpans, h]
 
 /-- the Field / ndarray / Session single-column entry points of every column kind return the spans of the column's rows
     (numbers, or byte strings compared byte-exactly); an indexed string column needs a well-formed index -/
 theorem column_spans_eq_spec (c : Column) (hv : c.Valid) : columnSpans .repaired c = .ok (spans neq c.rows) :=
   columnSpans_eq_spec c hv
 
-/- FULL STATEMENT (not provable: refuted by `Witness.C08.nc08d_third_field_ignored`, open finding NC08d):
+/-- **`Session.get_spans(fields=…)` for any number of Fields** (full statement; holds since fix NC08d, the as-found behaviour
+    is kept as `Witness.C08.nc08d_third_field_ignored`): for `k ≥ 1` Fields of any kinds (numeric, fixed string, indexed
+    string with a well-formed index) of equal length the result is the span array of the joint column — adjacent rows lie in
+    the same span iff they agree in ALL fields. -/
+theorem session_get_spans_fields_eq_spec (c0 : Column) (cs : List Column) (hv : ∀ c ∈ c0 :: cs, c.Valid)
+    (hl : ∀ c ∈ cs, c.rows.length = c0.rows.length) :
+    sessionGetSpansFields .repaired (c0 :: cs) = .ok (spans neq (jointCols (c0 :: cs) c0.rows.length)) :=
+  sessionGetSpansFields_all c0 cs hv hl
 
-   theorem session_get_spans_fields_eq_spec (c0 : Column) (cs : List Column) (hv : ∀ c ∈ c0 :: cs, c.Valid)
-       (hl : ∀ c ∈ cs, c.rows.length = c0.rows.length) :
-       sessionGetSpansFields .repaired (c0 :: cs) = .ok (spans neq (joint rows of c0 :: cs))
+/-- the same for ndarray arguments (exactly two arrays take the two-array kernel, any other number is folded) -/
+theorem session_get_spans_arrays_eq_spec (a0 : List Int) (as : List (List Int)) (hl : ∀ a ∈ as, a.length = a0.length) :
+    sessionGetSpansArrays .repaired (a0 :: as) = .ok (spans neq (jointCols ((a0 :: as).map .numeric) a0.length)) :=
+  sessionGetSpansArrays_all a0 as hl
 
-   `Session.get_spans(fields=…)` indexes `fields[0]` and `fields[1]` only: one entry raises IndexError, entries beyond the
-   second are ignored. What holds is the statement for exactly two entries: -/
+/-- a boundary of the joint column is a boundary of at least one field: the joint spans are the common refinement -/
+theorem joint_boundary_iff (cols : List Column) (n : Nat) (hl : ∀ c ∈ cols, c.rows.length = n) (i : Nat) :
+    isBoundary neq (jointCols cols n) i = cols.any (fun c => isBoundary neq c.rows i) :=
+  isBoundary_jointCols cols n hl i
 
-/-- `Session.get_spans(fields=(f0, f1))` for Fields of any two kinds (numeric, fixed string, indexed string) -/
+-- non-vacuity: three fields of three kinds; the third one splits the second span
+example : sessionGetSpansFields .repaired
+    [.numeric [1, 1, 2, 2], .fixed [[97], [97], [98], [98]], .indexed [0, 1, 2, 3, 5] [120, 121, 121, 122, 122]] =
+    .ok [0, 1, 2, 3, 4] := rfl
+example : Column.Valid (.indexed [0, 1, 2, 3, 5] [120, 121, 121, 122, 122]) := by
+  simp only [Column.Valid]; unfold ValidIndex; decide
+
+/-- the two-field instance (kept: it was the registered obligation while NC08d was open) -/
 theorem session_get_spans_fields_eq_spec_partial (cols : List Column) (c0 c1 : Column) (h2 : cols = [c0, c1])
     (h0 : c0.Valid) (h1 : c1.Valid) (hl : c0.rows.length = c1.rows.length) :
     sessionGetSpansFields .repaired cols = .ok (spans neq (c0.rows.zip c1.rows)) := by
